@@ -62,38 +62,44 @@ type entry struct {
 	nargs  int      // required number of arguments, -1 = any
 	kinds  []string // Lean constructor names of GS.Generated.PanicSites.Kind
 	note   string
+	derive []string // kinds of the calls made on / with the i-th result of this call ("" = none), see derived()
 }
+
+// A callee of the form "@type:<suffix>" stands for the names of all struct fields of that package
+// whose declared type ends in <suffix> (so that renaming a private field is not a broken tie).
 
 var curated = []entry{
 	// the traverser goroutine: everything go-ipld-prime calls during Load / WalkAdv runs here,
 	// because TraversalBuilder.Start replaces StorageReadOpener by the traverser's own loader
-	{"ipldutil", "chooser", -1, []string{"chooser"}, "prototype chooser for the root block"},
-	{"ipldutil", "Load", 3, []string{"codec", "reifier"}, "LinkSystem.Load of the root block: decoder + node reifier"},
-	{"ipldutil", "ParseSelector", -1, []string{"selector"}, "selector compilation"},
-	{"ipldutil", "WalkAdv", -1, []string{"codec", "reifier", "chooser", "selector"}, "selector exploration; decoder, reifier, chooser of every further block"},
+	{"ipldutil", "@type:LinkTargetNodePrototypeChooser", -1, []string{"chooser"}, "prototype chooser for the root block", nil},
+	{"ipldutil", "Load", 3, []string{"codec", "reifier"}, "LinkSystem.Load of the root block: decoder + node reifier", nil},
+	{"ipldutil", "ParseSelector", -1, []string{"selector"}, "selector compilation", nil},
+	{"ipldutil", "WalkAdv", -1, []string{"codec", "reifier", "chooser", "selector"}, "selector exploration; decoder, reifier, chooser of every further block", nil},
 	// requestor: block loads and stores of the reconciled loader
-	{"requestmanager/reconciledloader", "StorageReadOpener", -1, []string{"storageRead"}, "local block load"},
-	{"requestmanager/reconciledloader", "ReadAll", -1, []string{"storageReadStream"}, "reading the stream returned by StorageReadOpener"},
-	{"requestmanager/reconciledloader", "StorageWriteOpener", -1, []string{"storageWriteOpener"}, "store of a verified remote block"},
-	{"requestmanager/reconciledloader", "SetBytes", -1, []string{"storageWriteBuffer"}, "writing into the writer returned by StorageWriteOpener"},
-	{"requestmanager/reconciledloader", "Write", -1, []string{"storageWriteBuffer"}, "writing into the writer returned by StorageWriteOpener"},
-	{"requestmanager/reconciledloader", "committer", -1, []string{"storageWriteCommitter"}, "commit of a stored block"},
-	// responder: block loads of the query executor
-	{"responsemanager/queryexecutor", "Loader", -1, []string{"storageRead"}, "block load (ResponseTask.Loader = linkSystem.StorageReadOpener)"},
-	{"responsemanager/queryexecutor", "Copy", -1, []string{"storageReadStream"}, "reading the stream returned by StorageReadOpener"},
+	{"requestmanager/reconciledloader", "StorageReadOpener", -1, []string{"storageRead"}, "local block load",
+		[]string{"storageReadStream"}},
+	{"requestmanager/reconciledloader", "StorageWriteOpener", -1, []string{"storageWriteOpener"}, "store of a verified remote block",
+		[]string{"storageWriteBuffer", "storageWriteCommitter"}},
+	// responder: block loads of the query executor (ResponseTask.Loader = linkSystem.StorageReadOpener)
+	{"responsemanager/queryexecutor", "@type:BlockReadOpener", -1, []string{"storageRead"}, "block load",
+		[]string{"storageReadStream"}},
 	// not among the kinds the property lists; kept in the table so that they stay visible
-	{"requestmanager", "ParseSelector", -1, []string{"selectorSpec"}, "validation of the selector spec node handed to Request"},
-	{"requestmanager", "Process*Hooks", -1, []string{"hook"}, "outgoing request / incoming response hooks"},
-	{"requestmanager/executor", "Process*Hooks", -1, []string{"hook"}, "incoming block hooks"},
-	{"responsemanager", "Process*Hooks", -1, []string{"hook"}, "incoming request / update hooks"},
-	{"responsemanager/queryexecutor", "Process*Hooks", -1, []string{"hook"}, "outgoing block / update hooks"},
+	{"requestmanager", "ParseSelector", -1, []string{"selectorSpec"}, "validation of the selector spec node handed to Request", nil},
+	{"requestmanager", "Process*Hooks", -1, []string{"hook"}, "outgoing request / incoming response hooks", nil},
+	{"requestmanager/executor", "Process*Hooks", -1, []string{"hook"}, "incoming block hooks", nil},
+	{"responsemanager", "Process*Hooks", -1, []string{"hook"}, "incoming request / update hooks", nil},
+	{"responsemanager/queryexecutor", "Process*Hooks", -1, []string{"hook"}, "outgoing block / update hooks", nil},
 }
 
+// struct fields of these types hold user-supplied functions: a call of such a field anywhere in the
+// repository is watched (besides the fixed names below)
+var userFuncTypes = []string{"LinkTargetNodePrototypeChooser", "BlockReadOpener", "BlockWriteOpener", "NodeReifier", "BlockWriteCommitter"}
+
 // watched callee names: a call with one of these names anywhere in the repository must be curated
-// or ignored.  (ReadAll, Write, SetBytes, Copy are only looked at inside their curated package.)
+// or ignored.
 var watched = []string{"StorageReadOpener", "StorageWriteOpener", "NodeReifier", "DecoderChooser", "EncoderChooser",
 	"HasherChooser", "Loader", "chooser", "Chooser", "CustomChooser", "customChooser", "nodeStyleChooser",
-	"nodeBuilderChooser", "committer", "ParseSelector", "CompileSelector", "WalkAdv", "WalkMatching",
+	"nodeBuilderChooser", "ParseSelector", "CompileSelector", "WalkAdv", "WalkMatching",
 	"WalkTransforming", "WalkLocal", "Load", "LoadRaw", "LoadPlusRaw", "MustLoad", "Store", "MustStore", "Fill",
 	"MustFill", "Process*Hooks"}
 
@@ -132,6 +138,29 @@ func nameMatches(pattern, name string) bool {
 	return pattern == name
 }
 
+// calleeMatches: does a call of `name` in package pkg match the curated callee pattern?
+func calleeMatches(pattern, pkg, name string) bool {
+	if strings.HasPrefix(pattern, "@type:") {
+		t, ok := fieldTypes[pkg][name]
+		return ok && strings.HasSuffix(t, strings.TrimPrefix(pattern, "@type:"))
+	}
+	return nameMatches(pattern, name)
+}
+
+// isUserFuncField: is `name` a struct field (of any package) whose type is one of userFuncTypes?
+func isUserFuncField(name string) bool {
+	for _, m := range fieldTypes {
+		if t, ok := m[name]; ok {
+			for _, u := range userFuncTypes {
+				if strings.HasSuffix(t, u) {
+					return true
+				}
+			}
+		}
+	}
+	return false
+}
+
 // ------------------------------------------------------------------ program representation
 
 type frame struct {
@@ -168,9 +197,10 @@ var (
 	frames     []*frame
 	calls      []*callSite
 	module     = "github.com/ipfs/go-graphsync"
-	byName     = map[string][]*frame{}    // function/method name -> declarations
-	mvalues    = map[string][]token.Pos{} // method/function name -> positions where it is used as a value
-	fieldNames = map[string]bool{}        // names of struct fields declared in the repository
+	byName     = map[string][]*frame{}          // function/method name -> declarations
+	mvalues    = map[string][]token.Pos{}       // method/function name -> positions where it is used as a value
+	fieldNames = map[string]bool{}              // names of struct fields declared in the repository
+	fieldTypes = map[string]map[string]string{} // package -> field name -> type text
 )
 
 func recvType(fd *ast.FuncDecl) string {
@@ -242,6 +272,10 @@ func load(repo string) {
 				for _, f := range st.Fields.List {
 					for _, nm := range f.Names {
 						fieldNames[nm.Name] = true
+						if fieldTypes[fi.pkg] == nil {
+							fieldTypes[fi.pkg] = map[string]string{}
+						}
+						fieldTypes[fi.pkg][nm.Name] = exprText(f.Type)
 					}
 				}
 			}
@@ -491,6 +525,87 @@ func relTo(p string) string {
 	return filepath.ToSlash(r)
 }
 
+// ------------------------------------------------------------------ values returned by user functions
+
+// derived finds the calls made on or with the idx-th result of the user-function call `src`
+// (the reader returned by StorageReadOpener, the writer and the committer returned by
+// StorageWriteOpener): inside the enclosing function declaration, a small taint analysis over
+// identifiers - the result variable, variables assigned from it, and `v, ok := x.(T)` for
+// non-pointer T - and then every call whose callee is a tainted identifier, a method of one, or a
+// function of a package outside the repository that receives one as an argument (io.ReadAll, io.Copy).
+// Handing the value to a repository function is not followed (ResponseTask readers handed to
+// Traverser.Advance are read on the traverser goroutine, under its recover frame).
+func derived(src *callSite, idx int) []*callSite {
+	decl := enclosingDecl(src.fr)
+	tainted := map[string]bool{}
+	found := false
+	ast.Inspect(decl.body, func(n ast.Node) bool {
+		as, ok := n.(*ast.AssignStmt)
+		if !ok || len(as.Rhs) != 1 || as.Rhs[0] != ast.Expr(src.call) {
+			return true
+		}
+		found = true
+		if idx < len(as.Lhs) {
+			if id, ok := as.Lhs[idx].(*ast.Ident); ok && id.Name != "_" {
+				tainted[id.Name] = true
+			}
+		}
+		return true
+	})
+	if !found {
+		die(src.call.Pos(), "the results of %s are not bound by an assignment: cannot follow the returned values", exprText(src.call.Fun))
+	}
+	isTainted := func(e ast.Expr) bool {
+		id, ok := e.(*ast.Ident)
+		return ok && tainted[id.Name]
+	}
+	for pass := 0; pass < 4; pass++ {
+		ast.Inspect(decl.body, func(n ast.Node) bool {
+			as, ok := n.(*ast.AssignStmt)
+			if !ok || len(as.Rhs) != 1 || len(as.Lhs) == 0 {
+				return true
+			}
+			from := as.Rhs[0]
+			if ta, ok := from.(*ast.TypeAssertExpr); ok {
+				if _, ptr := ta.Type.(*ast.StarExpr); ptr || ta.Type == nil {
+					return true
+				}
+				from = ta.X
+			}
+			if isTainted(from) {
+				if id, ok := as.Lhs[0].(*ast.Ident); ok && id.Name != "_" {
+					tainted[id.Name] = true
+				}
+			}
+			return true
+		})
+	}
+	var out []*callSite
+	for _, cs := range calls {
+		if enclosingDecl(cs.fr) != decl || cs == src {
+			continue
+		}
+		hit := false
+		switch f := cs.call.Fun.(type) {
+		case *ast.Ident:
+			hit = tainted[f.Name]
+		case *ast.SelectorExpr:
+			hit = isTainted(f.X)
+		}
+		if !hit && strings.HasPrefix(cs.pkgTo, "ext:") {
+			for _, a := range cs.call.Args {
+				if isTainted(a) {
+					hit = true
+				}
+			}
+		}
+		if hit {
+			out = append(out, cs)
+		}
+	}
+	return out
+}
+
 // ------------------------------------------------------------------ main
 
 type site struct {
@@ -627,38 +742,7 @@ func main() {
 	// classify every call of a watched name
 	var sites []site
 	used := make([]int, len(curated))
-	localNames := map[string]bool{"ReadAll": true, "Write": true, "SetBytes": true, "Copy": true}
-	for _, cs := range calls {
-		var ent *entry
-		for i := range curated {
-			c := &curated[i]
-			if c.pkg == cs.fr.pkg && nameMatches(c.callee, cs.name) && (c.nargs < 0 || c.nargs == len(cs.call.Args)) {
-				ent = c
-				used[i]++
-				break
-			}
-		}
-		if ent == nil {
-			isWatched := false
-			for _, w := range watched {
-				if nameMatches(w, cs.name) && !localNames[cs.name] {
-					isWatched = true
-				}
-			}
-			if !isWatched {
-				continue
-			}
-			ign := false
-			for _, ig := range ignored {
-				if ig.pkg == cs.fr.pkg && ig.callee == cs.name && (ig.nargs < 0 || ig.nargs == len(cs.call.Args)) {
-					ign = true
-				}
-			}
-			if ign {
-				continue
-			}
-			die(cs.call.Pos(), "new call site of a (possibly) user-supplied function: %s in package %s (%s) is neither curated nor ignored", exprText(cs.call.Fun), cs.fr.pkg, cs.fr.name)
-		}
+	emit := func(cs *callSite, kinds []string) {
 		sides := sidesOf(cs.fr.pkg)
 		if cs.fr.pkg == "ipldutil" {
 			sides = []string{"requestor", "responder"}
@@ -683,10 +767,60 @@ func main() {
 		}
 		sort.Strings(order)
 		pos := fset.Position(cs.call.Pos())
-		for _, kind := range ent.kinds {
+		for _, kind := range kinds {
 			for _, side := range sides {
 				for _, root := range order {
 					sites = append(sites, site{kind, side, cs.fr.file.rel, pos.Line, exprText(cs.call.Fun), enclosingDecl(cs.fr).name, root, agg[root]})
+				}
+			}
+		}
+	}
+	for _, cs := range calls {
+		var ent *entry
+		for i := range curated {
+			c := &curated[i]
+			if c.pkg == cs.fr.pkg && calleeMatches(c.callee, cs.fr.pkg, cs.name) && (c.nargs < 0 || c.nargs == len(cs.call.Args)) {
+				ent = c
+				used[i]++
+				break
+			}
+		}
+		if ent == nil {
+			isWatched := false
+			for _, w := range watched {
+				if nameMatches(w, cs.name) {
+					isWatched = true
+				}
+			}
+			if cs.recv && isUserFuncField(cs.name) {
+				isWatched = true
+			}
+			if !isWatched {
+				continue
+			}
+			ign := false
+			for _, ig := range ignored {
+				if ig.pkg == cs.fr.pkg && ig.callee == cs.name && (ig.nargs < 0 || ig.nargs == len(cs.call.Args)) {
+					ign = true
+				}
+			}
+			if ign {
+				continue
+			}
+			die(cs.call.Pos(), "new call site of a (possibly) user-supplied function: %s in package %s (%s) is neither curated nor ignored", exprText(cs.call.Fun), cs.fr.pkg, cs.fr.name)
+		}
+		emit(cs, ent.kinds)
+		if ent.derive != nil {
+			for idx, kind := range ent.derive {
+				if kind == "" {
+					continue
+				}
+				ds := derived(cs, idx)
+				if len(ds) == 0 {
+					die(cs.call.Pos(), "result #%d of %s (%s) is never used in a call inside %s: the translator no longer sees where the %s site is", idx, exprText(cs.call.Fun), ent.note, enclosingDecl(cs.fr).name, kind)
+				}
+				for _, d := range ds {
+					emit(d, []string{kind})
 				}
 			}
 		}
